@@ -45,6 +45,22 @@ class FuncInfo:
         return "contextmanager" in self.decorators
 
     @property
+    def is_generator(self):
+        """A plain generator function: its own body yields (nested defs and lambdas do not count)."""
+        if self.is_contextmanager:
+            return False
+        import ast as _ast
+        stack = list(self.node.body)
+        while stack:
+            n = stack.pop()
+            if isinstance(n, (_ast.Yield, _ast.YieldFrom)):
+                return True
+            if isinstance(n, (_ast.FunctionDef, _ast.AsyncFunctionDef, _ast.Lambda, _ast.ClassDef)):
+                continue
+            stack.extend(_ast.iter_child_nodes(n))
+        return False
+
+    @property
     def is_abstract(self):
         return "abstractmethod" in self.decorators
 
